@@ -330,7 +330,10 @@ func (u *Unit) extSpecial(call *ast.CallExpr, key string, f *types.Func, recv *V
 	case "sort.Strings", "sort.Slice":
 		// in-place permutation of the slice argument
 		if call != nil {
-			a := args[0]
+			saved0 := u.noSafety
+			u.noSafety = true
+			a := u.evalExpr(call.Args[0], st)
+			u.noSafety = saved0
 			srt := a.S
 			nv := Val{T: u.reg.fresh("sorted", srt), S: srt, GT: a.GT}
 			st.assume(eq("(len_"+srt+" "+nv.T+")", "(len_"+srt+" "+a.T+")"))
